@@ -578,6 +578,31 @@ func (x *c04World) stepParked(o c04Op) {
 			close(x.gate.release)
 			c.Fatalf("rejected concurrent %s for %s had an effect on the pod's allocation:\nbefore %s\nafter  %s", b.Kind, c04PodName(b.Pod), beforeB, v)
 		}
+		// the rejected request must not have cleared the way for a third one: while A is still
+		// in flight every further request for the pod is rejected as well
+		for _, k3 := range []string{"get", b.Kind} {
+			r3 := c04Req{Kind: k3, Pod: b.Pod}
+			ctx3, cancel3 := context.WithTimeout(context.Background(), 2*time.Second)
+			done3 := make(chan c04Result, 1)
+			go func() { done3 <- x.issue0(ctx3, r3, cidB) }()
+			var res3 c04Result
+			select {
+			case res3 = <-done3:
+			case <-time.After(500 * time.Millisecond):
+				cancel3()
+				close(x.gate.release)
+				c.Fatalf("third concurrent %s for %s did not return promptly while a request for the pod was in flight", k3, c04PodName(b.Pod))
+			}
+			cancel3()
+			if !vsIsProcessing(res3.err) {
+				close(x.gate.release)
+				c.Fatalf("after a rejected %s, a further %s for %s was admitted although the pod's %s is still in flight (parked at %s): err=%v addrs=%s", b.Kind, k3, c04PodName(b.Pod), o.A.Kind, x.gate.where, res3.err, fmtAddrs(res3.confs))
+			}
+		}
+		if st := x.w.storeDump(); st != midStore {
+			close(x.gate.release)
+			c.Fatalf("rejected concurrent requests for %s changed the store:\nbefore %s\nafter  %s", c04PodName(b.Pod), midStore, st)
+		}
 		close(x.gate.release)
 		resA = <-doneA
 		x.judge(o.A, cidA, resA, beforeA, false)
